@@ -16,7 +16,9 @@ P = 'prysm.polynomials.'
 
 ORDER_LISTS = ([0, 1, 2, 3, 4], [2, 6], [7], [3, 6, 9])
 NM_LISTS = ([(2, 2), (2, -2), (4, 2), (3, 1), (5, 5), (4, 0)], [(0, 0), (1, 1), (1, -1), (2, 0), (2, 2), (2, -2), (3, 1), (3, -1)], [(5, 5)],
-            [(3, 3), (3, 1), (2, 0), (6, -4), (6, -4), (8, 2)])
+            [(3, 3), (3, 1), (2, 0), (6, -4), (6, -4), (8, 2)],
+            # |m| = 1 has hand-written starting polynomials for n = 0..3: each of them requested, alone at the end of its table and not
+            [(0, 1), (1, -1), (2, 1), (2, -1)], [(3, 1), (4, -1), (2, 1)])
 
 # (sequence function, single function, extra scalar arguments and the values they take, coordinate arguments)
 FAMILIES = [
